@@ -700,8 +700,6 @@ class C08(Check):
                 if rng.random() < 0.15:
                     en = None
                 area = rng.choice([1e-4, 0.001, 0.005]) if nm != "T" else rng.choice([0.002, 0.01])
-                if rng.random() < 0.1:
-                    en = st  # empty window
                 leaks[nm] = (area, rng.choice([0.75, 0.6, 1.0]), st, en)
             spec = {"mode": rng.choice(["DD", "PDD"]), "hstep": hstep, "report": rng.choice(["ALL", hstep, hstep]), "duration": duration, "leaks": leaks}
             extra = {}
@@ -727,6 +725,11 @@ class C08(Check):
                 spec["pause"] = hstep * rng.randint(1, nst - 1)
                 spec["remove"] = [nm for nm in nodes if rng.random() < 0.7] or nodes[:1]
                 spec.pop("extra", None)  # the extra controls are not the leak's: remove_leak would not take them away
+            if not any(k in spec for k in ("rerun", "isolate", "pause")):
+                for nm in list(leaks):
+                    if nm not in spec.get("extra", {}) and rng.random() < 0.12:
+                        a_, c_, st, en = leaks[nm]
+                        leaks[nm] = (a_, c_, st, st)  # empty window: start_time = end_time
             specs.append(spec)
         return specs
 
